@@ -629,6 +629,15 @@ func (w *uWorld) doSend(i int, op UOp) *kit.Finding {
 		w.info.Inconclusive = fmt.Sprintf("op %d raced with an expiry", i)
 		return nil
 	}
+	if len(stray) > 0 && a == nil && w.findRec(cl.Addr.String(), nAssocBefore) == nil &&
+		kit.WaitFor(300*time.Millisecond, func() bool { return w.racedWithRemoval(cl.Addr.String()) }) {
+		// No new association: the datagram was handled on the client's previous association, after its removal was
+		// reported and before it left the table (its report carries events after "removed"). The properties do not
+		// speak about that window; what they forbid - a new association or traffic without one - did not happen.
+		w.aborted = true
+		w.info.Inconclusive = fmt.Sprintf("op %d met an association in the window between its removal report and its removal", i)
+		return nil
+	}
 	if len(stray) > 0 {
 		return kit.Violation("udp:forwarded-unauthenticated", "op %d: datagram that must not be forwarded (opens=%v addrOK=%v known=%v mut=%s) caused outbound traffic: %v", i, opens, addrOK, a != nil, op.Mut, stray)
 	}
